@@ -15,8 +15,8 @@
 EXTENDS Tunnel, IOUtils, Json
 
 CONSTANTS Depth, Bias      \* Bias: "pkt" (C08) or "dep" (C17)
-VARIABLES script, tk
-gvars == <<vars, script, tk>>
+VARIABLES script, tk, md0
+gvars == <<vars, script, tk, md0>>
 
 Coins(a, b) == [d \in Denom |-> IF d = FeeDenom THEN b ELSE a]
 G_Params == {[minDep |-> Coins(1, 2), base |-> 3, route |-> 4], [minDep |-> Coins(1, 2), base |-> 0, route |-> 2],
@@ -37,6 +37,7 @@ Who(a, t) ==
 
 GInit ==
     /\ Init
+    /\ md0 = params.minDep
     /\ script = <<>>
     /\ tk = 1
 
@@ -87,6 +88,12 @@ GFund ==
     \E t \in One(1..count), x \in One(FundSet) :
         /\ Fund(t, x)
         /\ script' = Append(script, [e |-> "Fund", t |-> t, x |-> x])
+\* governance changes the minimum deposit (ledger-biased walks only)
+G_MinDep == {Coins(1, 2), Coins(0, 2), Coins(2, 1), Coins(1, 0), Coins(3, 3)}
+GMinDep ==
+    \E md \in One(G_MinDep \ {params.minDep}) :
+        /\ SetMinDep(md)
+        /\ script' = Append(script, [e |-> "SetMinDep", md |-> md])
 GBlock(dts) ==
     \E dt \in One(dts) :
         /\ EndBlock(dt)
@@ -101,7 +108,7 @@ Class(k) ==
            [] k \in 22..22 -> "uroute"  [] OTHER -> "block"
     ELSE CASE k \in 1..3   -> "create"  [] k \in 4..8   -> "deposit" [] k \in 9..14  -> "withdraw"
            [] k \in 15..18 -> "activate" [] k \in 19..20 -> "deactivate" [] k \in 21..21 -> "fund"
-           [] k \in 22..22 -> "trigger" [] k \in 23..23 -> "route"   [] OTHER -> "block"
+           [] k \in 22..22 -> "trigger" [] k \in 23..23 -> "route"   [] k \in 24..25 -> "mindep" [] OTHER -> "block"
 Tickets == 1..32
 
 \* the last step is a plain EndBlock so that the final level has a single successor (TLC evaluates the Emit
@@ -123,6 +130,7 @@ Free(c) ==
       [] c = "feed"       -> GFeed
       [] c = "route"      -> GRoute
       [] c = "fund"       -> IF count > 0 THEN GFund ELSE GBlock({1})
+      [] c = "mindep"     -> IF count > 0 THEN GMinDep ELSE GBlock({1})
       [] OTHER            -> GBlock(DtSet)
 
 GNext ==
@@ -136,12 +144,12 @@ GNext ==
                  /\ tk' = RandomElement(Tickets)
        ELSE Free(Class(tk)) /\ tk' = RandomElement(Tickets)
 
-GSpec == GInit /\ [][GNext]_gvars
+GSpec == GInit /\ [][GNext /\ md0' = md0]_gvars
 
 Emit ==
     TLCGet("level") = Depth =>
-        Serialize(<<[c |-> [minA |-> CHOOSE x \in 0..9 : \E d \in Denom \ {FeeDenom} : params.minDep[d] = x,
-                            minB |-> params.minDep[FeeDenom], base |-> params.base, fps |-> params.route \div 2,
+        Serialize(<<[c |-> [minA |-> CHOOSE x \in 0..9 : \E d \in Denom \ {FeeDenom} : md0[d] = x,
+                            minB |-> md0[FeeDenom], base |-> params.base, fps |-> params.route \div 2,
                             initBal |-> InitBal],
                      steps |-> script]>>,
                   IOEnv.GEN_OUT,
